@@ -1,16 +1,24 @@
-"""C07 -- the compiler is total on arbitrary source text: lexical kernels only (slice)."""
+"""C07 -- the compiler is total on arbitrary source text: lexical kernels and the conditional-inclusion state machine (slice)."""
 from vlib.core import Query
 
 INFO = {
     "claim": "Slice: the keyword look-up (keyInit/keyTag/keyLongest), the interactive line-continuation test (scanIsContinued) and the separator clean-up of the linearizer (linXSep) perform no "
              "out-of-bounds access and reach no internal-error report on ANY NUL-terminated byte string within the length bound (all byte "
-             "values incl. >= 0x80), and keyTag/keyLongest agree with the keyword table. The whole-compiler clauses of C07 (termination, exit "
+             "values incl. >= 0x80), and keyTag/keyLongest agree with the keyword table. The conditional-inclusion state machine of include.c "
+             "(inclFileContents/inclLine/inclHandleIf/Elseif/Else/Endif with the real fluid-variable stack) terminates without a fault on every "
+             "directive soup within the bound, diagnoses every #if left open at end of file and every #else/#elseif/#endif outside an #if, and "
+             "includes exactly the text lines of the taken branches. The whole-compiler clauses of C07 (termination, exit "
              "status vs diagnostics, parser and later phases) are not decided.",
     "level": "model_checking",
-    "bounds": "words of <= 5 bytes, first byte enumerated (101 values quick, all 255 thorough), the other bytes symbolic; two consecutive lines of <= 5 (quick) / 8 (thorough) bytes for scanIsContinued",
-    "outside": "include.c, the scanner proper (scan()), linearizer, parser and all later phases; process-level exit status and diagnostics count",
+    "bounds": "words of <= 5 bytes, first byte enumerated (101 values quick, all 255 thorough), the other bytes symbolic; two consecutive lines of <= 5 (quick) / 8 (thorough) bytes for scanIsContinued; "
+              "token lists of <= 3 / 5 tokens of any tag for linXSep; sources of 0..3 (quick) / 0..4 (thorough) lines, each text, #if P/Q, #elseif P/Q, #else, "
+              "#endif or an unknown directive -- all 4^n shapes, directive forms symbolic; at 4 lines the 4 shapes '#if, other directive, #endif, x' are "
+              "excluded (no verdict)",
+    "outside": "#include / #assert / #line directives and file handling of include.c, the contents of lines, the scanner proper (scan()), the rest of the linearizer, parser and all later phases; process-level exit status and diagnostics count",
     "assumptions": ["symInternConst (symbol interning) is an unmodelled external without effect on the keyword tables",
-                    "strLength/strMatch of strops.c are the real ones"],
+                    "strLength/strMatch of strops.c are the real ones",
+                    "conditional inclusion: syscmd.c's directive recogniser and identifier scanner are replaced by their contract on the eight line forms; source-line "
+                    "objects and list cells are typed static objects, one per input line; listLastCons is modelled as a read-only view of the last cell"],
 }
 
 
@@ -45,9 +53,12 @@ def queries(ctx, extra):
     # conditional inclusion: every shape of 0..N lines (4^n shapes of length n), directive forms symbolic within the shape
     for n in range(0, 5):      # n = 5 (1024 shapes): 60 of them gave no verdict in 300 s under full load; not part of the claim
         for shape in range(4 ** n):
+            if n == 4 and _base4(shape, n)[1:] == "231":
+                continue      # #if / other directive / #endif / one more line: symbolic execution does not finish in 1200 s (the infeasible
+                              # "this #endif does not close the level" branch is explored); 4 of 256 shapes, stated in the claim
             qs.append(Query(name="incl_if_%d_%0*d" % (n, max(n, 1), int(_base4(shape, n) or "0")), harness="c07_incl.c", entry="h_incl_if",
                             defs=["-DNLINE=%d" % n, "-DSHAPE=%d" % shape], srcs=["fluid.c"], stubs=["stubs.c", "stubs_print.c"],
-                            unwind=2 * n + 8, timeout=300, mem_gb=4, tiers=("quick", "thorough") if n <= 3 else ("thorough",),
+                            unwind=2 * n + 8, timeout=600, mem_gb=6, tiers=("quick", "thorough") if n <= 3 else ("thorough",),
                             group="conditional inclusion",
                             bound="sources of exactly %d lines with shape %s (0 = text, 1 = #if, 2 = #endif, 3 = #elseif/#else/unknown directive; "
                                   "first line is the last digit); asserted-or-not of every #if/#elseif and the form of every class-3 line symbolic" % (n, _base4(shape, n) or "-")))
